@@ -47,6 +47,7 @@ type trTask struct {
 	Context    string              `json:"context"`
 	ExportAs   string              `json:"export_as"`
 	Dir        string              `json:"dir"`
+	Interactive bool               `json:"interactive"`
 }
 
 type trStage struct {
@@ -129,6 +130,7 @@ func buildTrTask(d trTask) *task.Task {
 	t.Condition = d.Condition
 	t.Variations = d.Variations
 	t.AllowFailure = d.Allow
+	t.Interactive = d.Interactive
 	if d.TimeoutMs > 0 {
 		to := time.Duration(d.TimeoutMs) * time.Millisecond
 		t.Timeout = &to
